@@ -166,18 +166,19 @@ func mapTourCfgs(kind string, quick bool) []mapCfg {
 	}
 	switch kind {
 	case "redblacktree", "avltree":
-		return []mapCfg{{"nat", "", 0, q(7, 9), 0}, {"revx", "", 0, q(5, 7), 0}, {"half", "", 0, q(7, 9), 0}, {"natx", "", 0, q(4, 6), 0}}
+		return []mapCfg{{"nat", "", 0, q(7, 9), 0}, {"revx", "", 0, q(5, 7), 0}, {"half", "", 0, q(7, 9), 0}, {"natx", "", 0, q(4, 6), 0},
+			{"dflt", "", 0, 5, 0}}
 	case "btree":
 		return []mapCfg{{"nat", "", 3, q(8, 10), 0}, {"nat", "", 4, q(7, 9), 0}, {"nat", "", 5, q(8, 9), 0},
-			{"nat", "", 6, q(8, 9), 0}, {"revx", "", 3, q(5, 7), 0}, {"half", "", 3, q(7, 9), 0}, {"halfx", "", 4, q(7, 9), 0}}
+			{"nat", "", 6, q(8, 9), 0}, {"revx", "", 3, q(5, 7), 0}, {"half", "", 3, q(7, 9), 0}, {"halfx", "", 4, q(7, 9), 0}, {"dflt", "", 3, 5, 0}}
 	case "treemap":
-		return []mapCfg{{"nat", "", 0, q(5, 7), 0}, {"revx", "", 0, q(4, 6), 0}, {"half", "", 0, q(5, 7), 0}}
+		return []mapCfg{{"nat", "", 0, q(5, 7), 0}, {"revx", "", 0, q(4, 6), 0}, {"half", "", 0, q(5, 7), 0}, {"dflt", "", 0, 5, 0}}
 	case "hashmap", "linkedhashmap":
 		return []mapCfg{{"", "", 0, q(4, 5), 0}}
 	case "hashbidimap":
 		return []mapCfg{{"", "", 0, 3, 3}, {"", "", 0, q(2, 4), q(4, 3)}}
 	case "treebidimap":
-		return []mapCfg{{"nat", "nat", 0, 3, 3}, {"half", "nat", 0, 4, 3}, {"natx", "halfx", 0, 3, 4}, {"rev", "revx", 0, q(2, 4), 3}}
+		return []mapCfg{{"nat", "nat", 0, 3, 3}, {"half", "nat", 0, 4, 3}, {"natx", "halfx", 0, 3, 4}, {"rev", "revx", 0, q(2, 4), 3}, {"dflt", "nat", 0, 5, 3}}
 	}
 	return nil
 }
@@ -325,9 +326,9 @@ func jobSet(j *jobCtx) {
 		}
 		cfgs := []sc{{"", 4}}
 		if k == "treeset" {
-			cfgs = []sc{{"nat", 5}, {"revx", 4}, {"half", 5}}
+			cfgs = []sc{{"nat", 5}, {"revx", 4}, {"half", 5}, {"dflt", 5}}
 			if !j.quick() {
-				cfgs = []sc{{"nat", 7}, {"revx", 5}, {"halfx", 7}}
+				cfgs = []sc{{"nat", 7}, {"revx", 5}, {"halfx", 7}, {"dflt", 5}}
 			}
 		} else if !j.quick() {
 			cfgs = []sc{{"", 5}}
